@@ -79,6 +79,7 @@ theorem xor_zero' (a : ℕ) : a ^^^ 0 = a := Nat.xor_zero a
 theorem and_self' (a : ℕ) : a &&& a = a := Nat.and_self a
 theorem or_self' (a : ℕ) : a ||| a = a := Nat.or_self a
 theorem xor_self' (a : ℕ) : a ^^^ a = 0 := Nat.xor_self a
+theorem xor_eq_zero' (a b : ℕ) : a ^^^ b = 0 ↔ a = b := Nat.xor_eq_zero_iff
 
 /-- rewrites of pyvc/engine.py -/
 theorem mask_is_mod (x k : ℕ) : x &&& (2 ^ k - 1) = x % 2 ^ k := Nat.and_two_pow_sub_one_eq_mod x k
